@@ -396,6 +396,9 @@ def evaluate_arithmetic(op, lval, rval):
         return result
     except ZeroDivisionError:
         return error.DIV_ZERO
+    except OverflowError:
+        # a number or a date beyond what can be represented
+        return error.NUM
 
 
 def evaluate_logic(op, lval, rval):
